@@ -443,9 +443,9 @@ func init() {
 		Timeout:     minutes(15, 120),
 		Cases: func(tier string, seed int64) []fw.Case {
 			l := []fw.Case{{Idx: 0, Kind: "limits", Seed: seed, N: pick(tier, 5000, 500000)}}
-			l = mkCases(l, "stream", 24, seed, pick(tier, 8, 500))
-			l = mkCases(l, "halt", 12, seed, pick(tier, 10, 500))
-			l = mkCases(l, "gate", 12, seed, pick(tier, 8, 500))
+			l = mkCases(l, "stream", 24, seed, pick(tier, 8, 200))
+			l = mkCases(l, "halt", 12, seed, pick(tier, 10, 250))
+			l = mkCases(l, "gate", 12, seed, pick(tier, 8, 250))
 			l = mkCases(l, "clock", 6, seed, pick(tier, 8, 300))
 			l = mkCases(l, "engine-default", 6, seed, pick(tier, 6, 200))
 			return l
